@@ -24,7 +24,11 @@ Relaxations (nothing else):
   Accepted only for that reason: the lazy dtype is an integer, the computed one a
   float, and the computed column really contains a missing value (or the object is
   empty).  A float column without missing values where an int was announced is
-  reported.
+  reported.  A reduction/groupby behind a where/mask/fillna/clip step that really upcast
+  an int column (lazy int, pandas float for the row-wise part) inherits that upcast;
+* nothing to compute from: zero input rows, or a filter removed every row before the
+  later steps ran, and the full result has zero rows (or, for zero input rows, is a
+  reduction whose entries are all missing) - treated like a zero-row partition.
 
 A program on which dask raises is outside this property (that is C36/C37/C38).
 """
@@ -85,6 +89,7 @@ def _has_missing(x):
 ELEMENTWISE = [True]  # set per case: the program has no final reduction / groupby
 BARE = [False]  # set per case: a reduction/groupby directly on the input frame, no row-wise step before
 REPLACES = [False]  # set per case: the program contains a value-replacing step (where/mask/fillna/clip/min_count)
+UPSTREAM_UPCAST = [False]  # set per case: a value-replacing ROW-WISE step in front of the reduction/groupby really upcast an int column
 USER_META = [False]  # set per case: the program passes meta= itself (map/apply/transform/shift)
 
 
@@ -115,7 +120,10 @@ def dtype_ok(meta_dt, got_dt, values, empty_ok):
     if gf[1] == "f" and mf[1] in "iu" and not ELEMENTWISE[0]:
         # reduction/groupby result: pandas' dtype follows from the input dtypes; integer announced and float
         # computed is acceptable only through missing values
-        return len(values) == 0 or _has_missing(values)
+        # ... or through the accepted value-dependent upcast of a where/mask/fillna/clip step in front of it (see
+        # below: dask announces int for `ddf.where(cond, nan)`, the data becomes float once a value is replaced);
+        # the reduction merely inherits the column's dtype then (mode/max/... of it hold no missing value themselves)
+        return len(values) == 0 or _has_missing(values) or UPSTREAM_UPCAST[0]
     # value-dependent numeric upcasts cannot be inferred statically; dask's own check_meta(numeric_equal=True)
     # documents integer and floating dtypes as equal for that reason.  Accepted when the reason is visible:
     # missing values are really there, the program replaces values (where/mask/fillna/clip: an int column
@@ -231,6 +239,44 @@ def uses_user_meta(spec):
     return "agg" in fin and fin["agg"]["kind"] == "transform"
 
 
+def _str_key(case, g, env):
+    """a grouping key (column, derived Series or the index) has pandas' ``str`` dtype (signature flag)"""
+    try:
+        by = c38.make_by(case.base, g, env)
+        if isinstance(by, (list, str)):
+            dts = list(case.base[[by] if isinstance(by, str) else by].dtypes)
+        else:
+            dts = [by.dtype]
+        return any(isinstance(dt, pd.StringDtype) for dt in dts)
+    except Exception:  # noqa: BLE001
+        return False
+
+
+def _all_missing_over_nothing(case, got):
+    return len(case.pdf) == 0 and isinstance(got, pd.Series) and len(got) > 0 and bool(got.isna().all())
+
+
+def _upstream_upcast(case, ops, envp, envd):
+    """The row-wise part contains a value-replacing step and really turned an integer column into a float one:
+    its lazy dtype is an integer, the dtype pandas computes for it a float (same family)."""
+    if not any(n.get("op") in ("where", "mask", "fillna", "clip") or n.get("e") in ("where", "mask") or n.get("m") in ("fillna", "clip") for n in D.walk(ops)):
+        return False
+    try:
+        pre_p = D.run_pipeline(case.base, ops, envp)
+        pre_l = D.run_pipeline(case.ddf, ops, envd)._meta
+        lz = list(pre_l.dtypes) if isinstance(pre_l, pd.DataFrame) else [pre_l.dtype]
+        pd_ = list(pre_p.dtypes) if isinstance(pre_p, pd.DataFrame) else [pre_p.dtype]
+    except Exception:  # noqa: BLE001
+        return False
+    if len(lz) != len(pd_):
+        return False
+    for a, b in zip(lz, pd_):
+        fa, fb = _numfam(a), _numfam(b)
+        if fa and fb and fa[1] in "iu" and fb[1] == "f":
+            return True
+    return False
+
+
 def describe_final(spec):
     fin = spec.get("final")
     if not fin:
@@ -259,11 +305,13 @@ def check(spec):
         n.get("e") == "bin" and n.get("op") == "add" and isinstance(n.get("r"), dict) and n["r"].get("e") == "lit" and isinstance(n["r"].get("v"), str)
         for n in D.walk(ops)
     )
+    sig["str_getitem"] = any(n.get("e") == "acc" and n.get("acc") == "str" and n.get("m") == "getitem" for n in D.walk(ops))
     fin = spec.get("final") or {}
     if "agg" in fin:
         a, g = fin["agg"], fin["gb"]
         sig["gb_kind"] = a["kind"]
         sig["by"] = "index" if g["by"] == "index" else "series" if isinstance(g["by"], dict) else "cols"
+        sig["str_key"] = _str_key(case, g, envp)
     ELEMENTWISE[0] = not spec.get("final")
     USER_META[0] = uses_user_meta(spec)
     BARE[0] = bool(spec.get("final")) and not spec.get("ops")
@@ -271,11 +319,14 @@ def check(spec):
         n.get("op") in ("where", "mask", "fillna", "clip") or n.get("e") in ("where", "mask") or n.get("m") in ("fillna", "clip") or "min_count" in (n.get("kw") or {})
         for n in D.walk([spec.get("ops", []), spec.get("final") or {}])
     )
+    UPSTREAM_UPCAST[0] = False
     with warnings.catch_warnings(), np.errstate(all="ignore"):
         warnings.simplefilter("ignore")
         status, want = reference(run_program, case.base, spec, envp)
         if status == "err":
             raise Reject(f"pandas rejects the program: {want!r}")
+        if spec.get("final") and ops and REPLACES[0]:
+            UPSTREAM_UPCAST[0] = _upstream_upcast(case, ops, envp, envd)
         try:
             lazy = run_program(case.ddf, spec, envd)
             if not D.is_dask(lazy):
@@ -300,6 +351,18 @@ def check(spec):
         # zero input rows: the full result is computed from no data at all, which is the empty-partition
         # situation (pandas' dtypes over nothing are data dependent) rather than a full result
         nothing = len(case.pdf) == 0 and hasattr(got, "__len__") and len(got) == 0
+        if _all_missing_over_nothing(case, got):
+            # zero input rows and a reduction whose entries are ALL missing (min/max/mean/... over nothing): as for
+            # a scalar result, missing values carry no dtype information - pandas makes the Series float64 where any
+            # non-empty input gives what dask announces (e.g. min over an int and a bool column: object)
+            nothing = True
+        if not nothing and hasattr(got, "__len__") and len(got) == 0:
+            # the same situation reached through the program itself: a filter removed EVERY row, so all later
+            # steps (and the final reduction/groupby) ran over no rows in every partition.  pandas' dtypes over
+            # nothing differ from any non-empty input (e.g. empty str column + "!" is object, non-empty is str)
+            # while dask's lazy dtype is the non-empty one.  Only when the row-wise part already yields zero rows.
+            st_, pre = reference(D.run_pipeline, case.base, ops, envp)
+            nothing = st_ == "ok" and hasattr(pre, "__len__") and len(pre) == 0
         compare_meta(meta, got, "full result", sig, check_index=check_index, empty_ok=nothing)
         if D.kind_of(meta) == "scalar":
             return
@@ -310,7 +373,7 @@ def check(spec):
             count("partition-compute-raised:" + type(e).__name__)
             raise Reject(f"computing single partitions raises: {type(e).__name__}") from None
     for i, p in enumerate(parts):
-        empty = hasattr(p, "__len__") and len(p) == 0
+        empty = (hasattr(p, "__len__") and len(p) == 0) or _all_missing_over_nothing(case, p)
         # (int announced / float computed in a partition is attributed to missing values anywhere in the full result)
         compare_meta(meta, p, f"partition[{i}/{nparts}]", sig, empty_ok=empty, check_index=check_index, full=got)
     count("partitions-checked", len(parts))
